@@ -904,6 +904,7 @@ pub fn exec(q: &mut AnyQ, m: &mut Model, st: &Step, cx: &mut Ctx) {
         }
         Step::Extend { pairs, hint } => {
             let len0 = q.len();
+            let before_ids: Vec<u32> = m.keys();
             let src = HintedSource::new(mkpairs(pairs), *hint);
             let rep = hint.report(pairs.len());
             q.extend(src);
@@ -924,8 +925,17 @@ pub fn exec(q: &mut AnyQ, m: &mut Model, st: &Step, cx: &mut Ctx) {
                     m.push(*k, *p, *pl);
                 }
             }
-            // which item value survives a clash is not part of any statement checked here
-            // (the hint-independence of it is C07's differential check): adopt what is stored
+            // an item that was stored before this call keeps its value across a priority update
+            // (C12: changes made through get_mut & co. "persist across all later … priority
+            // updates"); which value survives among repeats *within* the batch is not part of
+            // any statement checked here (its hint-independence is C07's differential check)
+            for k in &adopt {
+                if let (Some(h), Some(old)) = (q.get_borrowed(&KeyId(*k)), m.get(*k).map(|e| e.1)) {
+                    if before_ids.binary_search(k).is_ok() {
+                        expect!(cx, C12, "payload_replaced_by_extend", h.2 == old, "extend updated the priority of item {} which was already stored, and replaced its item value (payload {:#x}) by the one given ({:#x})", k, old, h.2);
+                    }
+                }
+            }
             adopt_payloads(q, m, &adopt, pairs, cx, C07);
             cx.ret(pairs.len() as u64);
         }
